@@ -20,15 +20,22 @@ ASSUMPTIONS = ["JSON/gzip decoding is not modelled (files are written with the s
 COLS = [0, 1, 2, 3, 4, 5, 6, 9, 10]     # idx ts dur pid tid stream corr name cat   (icorr: C02, iter: C12)
 
 
-def _fractionalise(case, rng):
+def _fractionalise(case, rng, mode=0):
+    """mode 0: fractional start times and durations; mode 1: whole start times written as floats (12.0), fractional
+    durations; mode 2: integer start times, a metadata entry without "ts" (the parsed column is floating point), fractional
+    durations.  In all three the timestamp column of the parsed file is float64, so the loader has to round inward."""
     fr = [0.0, 0.001, 0.5, 0.25, 0.125, 0.999, 0.75, 0.0625, 0.3, 0.002]
     for rk in case["ranks"].values():
+        if mode == 2:
+            rk["events"].insert(rng.randrange(len(rk["events"]) + 1),
+                                {"ph": "M", "name": "thread_sort_index", "pid": 1, "tid": 1, "args": {"sort_index": 3}})
         for e in rk["events"]:
             if "ts" in e and isinstance(e["ts"], int):
-                e["ts"] = e["ts"] + rng.choice(fr)
+                e["ts"] = e["ts"] + rng.choice(fr) if mode == 0 else (float(e["ts"]) if mode == 1 else e["ts"])
             if "dur" in e and isinstance(e["dur"], int):
                 e["dur"] = e["dur"] + rng.choice(fr)
     case["fractional"] = True
+    case["fractional_mode"] = mode
 
 
 def gen_cases(seed, tier, n):
@@ -45,7 +52,16 @@ def gen_cases(seed, tier, n):
                         if "ts" in e:
                             e["ts"] -= c["epoch"]
                 c["epoch"] = 0
-            _fractionalise(c, rng)
+            _fractionalise(c, rng, (i // 5) % 3)
+        if i % 7 == 3 and len(c["ranks"]) > 1:
+            # one later rank whose vocabulary is the union of all ranks' (its local symbol table has the job table's size, in
+            # another order): copies of the other ranks' entries are appended to it
+            import copy
+            ks = sorted(c["ranks"].keys())
+            tgt = ks[-1] if i % 2 else ks[1]
+            extra = [copy.deepcopy(e) for r in ks if r != tgt for e in c["ranks"][r]["events"]
+                     if not str(e.get("name", "")).startswith("ProfilerStep")]
+            c["ranks"][tgt]["events"].extend(extra)
         out.append(c)
     return out
 
